@@ -47,14 +47,17 @@ Definition mreq_of (t : tmreq) : mreq := {| mrcached := fst t; mrp := map mres_o
 (* ---- observables of the model's outputs ----------------------------------------------------- *)
 Definition shape3 (p : payload) : tshape3 :=
   map (fun r => (rctx r, map (fun s => (sctx s, map iid (sitems s))) (rscopes r))) p.
-Definition out3 (sz : sizer) (r : req) : tout3 := (rcached r, payload_size sz (rp r), shape3 (rp r)).
+Definition out3 (w : item -> Z) (sz : sizer) (r : req) : tout3 := (rcached r, payload_size w sz (rp r), shape3 (rp r)).
 
 Definition shape4 (p : mpayload) : tshape4 :=
   map (fun r => (mrctx r, map (fun s => (msctx s, map (fun m => (mid m, mkind m, map iid (mpts m))) (msmetrics s))) (mrscopes r))) p.
 Definition out4 (sz : sizer) (r : mreq) : tout4 := (mrcached r, mpayload_size sz (mrp r), shape4 (mrp r)).
 
-Definition model_l3 (sz max : Z) (a : treq) (b : option treq) : option (list tout3) :=
-  option_map (map (out3 (sizer_of sz))) (merge_split (sizer_of sz) max (req_of a) (option_map req_of b)).
+(* signal 0 logs / 1 traces: every item weighs 1; signal 2 profiles: a profile weighs its samples *)
+Definition weight_of (signal : Z) : item -> Z := if signal =? 2 then w_samples else w_unit.
+Definition model_l3 (signal sz max : Z) (a : treq) (b : option treq) : option (list tout3) :=
+  option_map (map (out3 (weight_of signal) (sizer_of sz)))
+             (merge_split (weight_of signal) (sizer_of sz) max (req_of a) (option_map req_of b)).
 Definition model_m4 (sz max : Z) (a : tmreq) (b : option tmreq) : option (list tout4) :=
   option_map (map (out4 (sizer_of sz))) (mmerge_split (sizer_of sz) max (mreq_of a) (option_map mreq_of b)).
 
@@ -125,7 +128,7 @@ Definition pz_eqb (a b : Z * Z) : bool := Z.eqb (fst a) (fst b) && Z.eqb (snd a)
 (* ---- check_case -------------------------------------------------------------------------------- *)
 Definition check_case (c : ccase) : bool :=
   match c with
-  | CL3 _ sz max a b obs => option_eqb (list_eqb out3_eqb) (model_l3 sz max a b) obs
+  | CL3 sg sz max a b obs => option_eqb (list_eqb out3_eqb) (model_l3 sg sz max a b) obs
   | CM4 sz max a b obs => option_eqb (list_eqb out4_eqb) (model_m4 sz max a b) obs
   | CSov l => forallb (fun p => Z.eqb (delta Bytes (fst p)) (snd p)) l
   | CCfg ft mn mx ok => Bool.eqb (batch_cfg_valid ft mn mx) ok
@@ -141,7 +144,7 @@ Inductive cout :=
 
 Definition model_out (c : ccase) : cout :=
   match c with
-  | CL3 _ sz max a b _ => OL3 (model_l3 sz max a b)
+  | CL3 sg sz max a b _ => OL3 (model_l3 sg sz max a b)
   | CM4 sz max a b _ => OM4 (model_m4 sz max a b)
   | CSov l => OSov (map (fun p => (fst p, delta Bytes (fst p))) l)
   | CCfg ft mn mx _ => OCfg (batch_cfg_valid ft mn mx)
